@@ -98,6 +98,16 @@ def extract(src_root):
         tree = ast.parse(open(path).read(), path)
         msc = _Scope("%s:<module>" % mod, "module", None)
         _collect_locals(tree.body, msc)
+        # `from m import *` binds every public name of m; `global x` + assignment inside a function binds x at module level
+        for node in ast.walk(tree):
+            if isinstance(node, ast.ImportFrom) and any(a.name == "*" for a in node.names) and node.module:
+                try:
+                    m = importlib.import_module(node.module)
+                    msc.locals.update(getattr(m, "__all__", [k for k in vars(m) if not k.startswith("_")]))
+                except Exception:
+                    pass
+            if isinstance(node, ast.Global):
+                msc.locals.update(node.names)
         defs[mod] = sorted(msc.locals)
         al = {}
         for n in tree.body:
